@@ -1,0 +1,45 @@
+//go:build verif
+
+// Contracts for the binary decoding of bins (generic decoder), checked by /verif (govc). Comment-only.
+
+package store
+
+// A byte slice only ever shrinks from the front while decoding: same array, same end.
+//@ pred Suffix(b *[]byte) := arr(*b) == old(arr(*b)) && off(*b) >= old(off(*b)) && off(*b) + len(*b) == old(off(*b) + len(*b))
+
+// DecodeAndMergeWith (generic): decodes one block of bins in the given layout and adds every bin to s.
+// Error propagation: a nil result means that every primitive read succeeded (the block was complete) and the
+// layout was a known one; the input is only consumed from the front; the store invariant is preserved and no
+// weight is removed. Input domain (A-DOM): the decoded counts are finite and non-negative and the decoded indexes
+// fit in 32 bits, as in every prefix of a valid encoding (stated as assumptions after the primitive reads).
+//@ func DecodeAndMergeWith
+//@   serves C08 C06 C07
+//@   requires SInv(s) && b != nil
+//@   ghost eof bool := false
+//@   ghost unknown bool := false
+//@   ensures complete: result == nil ==> !eof && (binEncodingMode == enc.BinEncodingIndexDeltasAndCounts || binEncodingMode == enc.BinEncodingIndexDeltas || binEncodingMode == enc.BinEncodingContiguousCounts)
+//@   ensures reported: (eof || !(binEncodingMode == enc.BinEncodingIndexDeltasAndCounts || binEncodingMode == enc.BinEncodingIndexDeltas || binEncodingMode == enc.BinEncodingContiguousCounts)) ==> result != nil
+//@   ensures Suffix(b)
+//@   ensures SInv(s) && STot(s) >= old(STot(s))
+//@   ensures stable: footprintStable(s)
+//@   modifies *b, footprint(s)
+//@   after encoding.DecodeUvarint64#1 ghost eof := eof || $result1 != nil
+//@   after encoding.DecodeUvarint64#2 ghost eof := eof || $result1 != nil
+//@   after encoding.DecodeUvarint64#3 ghost eof := eof || $result1 != nil
+//@   after encoding.DecodeVarint64#1 ghost eof := eof || $result1 != nil
+//@   after encoding.DecodeVarint64#2 ghost eof := eof || $result1 != nil
+//@   after encoding.DecodeVarint64#3 ghost eof := eof || $result1 != nil
+//@   after encoding.DecodeVarint64#4 ghost eof := eof || $result1 != nil
+//@   after encoding.DecodeVarfloat64#1 ghost eof := eof || $result1 != nil
+//@   after encoding.DecodeVarfloat64#2 ghost eof := eof || $result1 != nil
+//@   after encoding.DecodeVarfloat64#1 assume $result1 == nil ==> $result >= 0.0
+//@   after encoding.DecodeVarfloat64#2 assume $result1 == nil ==> $result >= 0.0 && in32(index)
+//@   after encoding.DecodeVarint64#1 assume $result1 == nil ==> in32(index + $result)
+//@   after encoding.DecodeVarint64#2 assume $result1 == nil ==> in32(index + $result)
+//@   after encoding.DecodeVarint64#3 assume $result1 == nil ==> in32($result)
+//@   loop 1 invariant !eof && i <= numBins && b != nil && Suffix(b) && SInv(s) && STot(s) >= old(STot(s)) && in32(index) && footprintStable(s)
+//@   loop 1 decreases numBins - i
+//@   loop 2 invariant !eof && i <= numBins && b != nil && Suffix(b) && SInv(s) && STot(s) >= old(STot(s)) && in32(index) && footprintStable(s)
+//@   loop 2 decreases numBins - i
+//@   loop 3 invariant !eof && i <= numBins && b != nil && Suffix(b) && SInv(s) && STot(s) >= old(STot(s)) && footprintStable(s)
+//@   loop 3 decreases numBins - i
